@@ -34,12 +34,67 @@ func init() {
 	contextFunctions[symbols.NT_StepWithAxisAndNodeTest] = leftRightDependentResult
 	contextFunctions[symbols.NT_StepWithAxisAndNodeTestAndPredicate] = leftRightDependentResult
 	contextFunctions[symbols.NT_StepWithPredicateWithAnotherPredicate] = leftRightDependentResult
-	contextFunctions[symbols.NT_FilterExprWithPredicate] = leftRightDependentResult
+	contextFunctions[symbols.NT_FilterExprWithPredicate] = execFilterExprWithPredicate
 	contextFunctions[symbols.NT_AxisName] = execAxisName
 	contextFunctions[symbols.NT_AbbreviatedStepParent] = execAbbreviatedStepParent
 	contextFunctions[symbols.NT_AbbreviatedAxisSpecifier] = execAbbreviatedAxisSpecifier
 	contextFunctions[symbols.NT_AbbreviatedAbsoluteLocationPath] = execAbbreviatedAbsoluteLocationPath
 	contextFunctions[symbols.NT_AbbreviatedRelativeLocationPath] = execAbbreviatedRelativeLocationPath
+	contextFunctions[symbols.NT_AbsoluteLocationPathWithRelative] = execAbsoluteLocationPathWithRelative
+	contextFunctions[symbols.NT_PathExprFilterWithPath] = execPathExprFilterWithPath
+	contextFunctions[symbols.NT_PathExprFilterWithAbbreviatedPath] = execAbbreviatedRelativeLocationPath
+}
+
+func execFilterExprWithPredicate(context *exprContext, expr *grammar.Grammar) error {
+	children := make([]*bsr.BSR, 0, 2)
+
+	for _, cn := range expr.BSR.GetAllNTChildren() {
+		for _, c := range cn {
+			c := c
+			children = append(children, &c)
+			break
+		}
+	}
+
+	if err := execContext(context, expr.Next(children[0])); err != nil {
+		return err
+	}
+
+	// A predicate of a filter expression numbers the nodes in document order.
+	if nodeSet, ok := context.result.(NodeSet); ok {
+		sorted := make(NodeSet, len(nodeSet))
+		copy(sorted, nodeSet)
+		context.result = cleanupForwardAxis(sorted)
+	}
+
+	return execContext(context, expr.Next(children[1]))
+}
+
+func execAbsoluteLocationPathWithRelative(context *exprContext, expr *grammar.Grammar) error {
+	context.result = NodeSet{context.root}
+	return execChildren(context, expr)
+}
+
+func execPathExprFilterWithPath(context *exprContext, expr *grammar.Grammar) error {
+	children := make([]*bsr.BSR, 0, 2)
+
+	for _, cn := range expr.BSR.GetAllNTChildren() {
+		for _, c := range cn {
+			c := c
+			children = append(children, &c)
+			break
+		}
+	}
+
+	if err := execContext(context, expr.Next(children[0])); err != nil {
+		return err
+	}
+
+	if _, ok := context.result.(NodeSet); !ok {
+		return errQueryNonNodeset
+	}
+
+	return execContext(context, expr.Next(children[1]))
 }
 
 func execAbsoluteLocationPathOnly(context *exprContext, expr *grammar.Grammar) error {
